@@ -261,7 +261,7 @@ def run(ck, w):
     order_after_success(ck, o, fin, events_of(lib, fin, "index::write::IndexWriter::finish"), closes, "IndexWriter::finish", "Band::close")
     iwf = w.body("index::write::IndexWriter::finish")
     o = ck.ob("C03.4c", "IndexWriter::finish: the last hunk is written (finish_hunk ok) before it reports the count")
-    rets = [bb for bb, j, s in rules.agg_sites(iwf, "std::result::Result", "Ok")]
+    rets = [bb for bb, j, s in rules.agg_sites(iwf, "std::result::Result", "Ok") if s["pl"]["l"] == 0]
     order_after_success(ck, o, iwf, events_of(lib, iwf, "index::write::IndexWriter::finish_hunk"), rets, "finish_hunk", "return Ok(hunks_written)")
 
     o = ck.ob("C03.4d", "only Band::close writes BANDTAIL, and only BackupWriter::finish calls Band::close")
